@@ -4,6 +4,7 @@ import (
 	"go/ast"
 	"go/types"
 	"regexp"
+	"strings"
 
 	"mlverif/core"
 	"mlverif/gea"
@@ -139,6 +140,60 @@ func checkMerge(c *Ctx, prop string) {
 		})
 	c.mayRow(m, prop+"/merge/classes", "push/pull merge performs nothing but handler calls",
 		classNotIn("CALL:alive", "CALL:dead", "CALL:suspect", "LOCK:*"), func(g getf, e *gea.Effect) bool { return false })
+	// every remote entry is delivered: one iteration of the merge loop, explored on its own
+	var body *ast.BlockStmt
+	var rangeVal *ast.Ident
+	ast.Inspect(m.fn.Decl.Body, func(n ast.Node) bool {
+		if rs, ok := n.(*ast.RangeStmt); ok && body == nil {
+			if id, ok := rs.Value.(*ast.Ident); ok && core.NamedOf(c.P.TypeOf(id)) == "pushNodeState" {
+				body, rangeVal = rs.Body, id
+			}
+		}
+		return true
+	})
+	if body == nil {
+		fail("anchor unresolved: loop over the remote entries in %s", m.fn.Name)
+	}
+	spec := &hSpec{c: c, kind: "mergeiter", fn: m.fn, recv: m.x.Spec.(*hSpec).recv}
+	ix := gea.New(c.P, m.fn.Name+"$iteration", m.fn.Decl.Type, body, spec)
+	ix.DeclareVar("RS", stateDom)
+	ix.SetAlias(c.P.Info.Defs[rangeVal], "r")
+	ix.Run()
+	c.Funcs[m.fn.Name+"$iteration"] = true
+	ruleD := "push/pull: every remote entry is handed to its handler; the merge itself never filters entries on local state (that is the handlers' job: refutation, precedence)"
+	c.Rule(ruleD)
+	for _, ex := range ix.Exits {
+		want := map[string]string{"StateAlive": "CALL:alive", "StateLeft": "CALL:dead", "StateDead": "CALL:suspect", "StateSuspect": "CALL:suspect"}
+		rsv := ""
+		for k, v := range ex.Cube {
+			if strings.HasPrefix(k, "enum:r.State") {
+				rsv = v
+			}
+		}
+		if rsv == "" || rsv == "<other>" {
+			continue
+		}
+		ok := ex.Seen[want[rsv]] > 0
+		why := ""
+		if !ok {
+			// tolerated only if the skipping path tested nothing but the entry's own fields
+			local := ""
+			for k := range ex.Cube {
+				if strings.HasPrefix(k, "enum:r.State") {
+					continue
+				}
+				if strings.Contains(k, "m.") || strings.HasPrefix(k, "?") {
+					local = k
+				}
+			}
+			if local == "" {
+				ok = true
+			} else {
+				why = "a remote " + rsv + " entry is skipped depending on " + local
+			}
+		}
+		c.Check(prop+"/merge/delivers-all/"+rsv, ruleD, ex.Pos, ok, why)
+	}
 	// every remote state is delivered somewhere
 	for _, want := range []struct{ st, cls string }{{"StateAlive", "CALL:alive"}, {"StateLeft", "CALL:dead"}, {"StateDead", "CALL:suspect"}, {"StateSuspect", "CALL:suspect"}} {
 		found := false
